@@ -99,6 +99,23 @@ pub fn st_to_digit(a: u64, b: u64) -> u64 { let c = (a & 0x7f) as u8 as char; ou
 pub fn st_from_u32(a: u64, _b: u64) -> u64 { ou(char::from_u32(a as u32).map(|c| c as u64)) }
 pub fn st_ptr_eq(a: u64, b: u64) -> u64 { let x = [a, b]; (std::ptr::eq(&x[0], &x[0]) as u64) | (std::ptr::eq(&x[0], &x[1]) as u64) << 1 }
 
+
+pub fn st_it_enumerate(a: u64, b: u64) -> u64 { let x = bytes(a); let mut r = 0u64; for (i, v) in x.iter().enumerate() { if *v as u64 > (b & 0x7f) { r += (i as u64 + 1) * 7; } } r }
+pub fn st_it_take_while(a: u64, b: u64) -> u64 { bytes(a).iter().take_while(|v| (**v as u64) < (b & 0x7f)).count() as u64 }
+pub fn st_it_skip_take(a: u64, b: u64) -> u64 { let x = bytes(a); let mut r = 0u64; for v in x.iter().skip((b % 3) as usize).take(((b >> 2) % 4) as usize) { r = r * 131 + *v as u64; } r }
+pub fn st_it_zip(a: u64, b: u64) -> u64 { let x = bytes(a); let y = bytes(b); let mut r = 0u64; for (p, q) in x.iter().zip(y.iter()) { if p == q { r += 1; } } r }
+pub fn st_it_chain(a: u64, b: u64) -> u64 { let x = bytes(a); let y = bytes(b); let mut r = 0u64; for v in x[..2].iter().chain(y[1..].iter()) { r = r * 129 + *v as u64; } r }
+pub fn st_it_position(a: u64, b: u64) -> u64 { ou(bytes(a).iter().position(|v| *v as u64 == (b & 0x7f)).map(|i| i as u64)) }
+pub fn st_it_find(a: u64, b: u64) -> u64 { ou(bytes(a).iter().find(|v| (**v as u64) > (b & 0x7f)).map(|v| *v as u64)) }
+pub fn st_it_find_map(a: u64, b: u64) -> u64 { ou(bytes(a).iter().find_map(|v| if (*v as u64) > (b & 0x7f) { Some(*v as u64 + 1) } else { None })) }
+pub fn st_it_fold(a: u64, b: u64) -> u64 { bytes(a).iter().fold(b & 0xffff, |acc, v| acc * 3 + *v as u64) }
+pub fn st_it_last(a: u64, b: u64) -> u64 { ou(bytes(a)[..(b % 5) as usize].iter().last().map(|v| *v as u64)) }
+pub fn st_it_nth(a: u64, b: u64) -> u64 { ou(bytes(a).iter().nth((b % 6) as usize).map(|v| *v as u64)) }
+pub fn st_it_sum(a: u64, b: u64) -> u64 { bytes(a).iter().map(|v| *v as u32 + (b & 0xff) as u32).sum::<u32>() as u64 }
+pub fn st_it_sum_overflow(a: u64, b: u64) -> u64 { bytes(a).iter().map(|v| (*v).wrapping_add(b as u8)).sum::<u8>() as u64 }
+pub fn st_partition_point(a: u64, b: u64) -> u64 { let mut x = bytes(a); let mut i = 1; while i < 4 { if x[i] < x[i - 1] { x[i] = x[i - 1]; } i += 1; } x.partition_point(|v| (*v as u64) < (b & 0x7f)) as u64 }
+pub fn st_it_any_all(a: u64, b: u64) -> u64 { let x = bytes(a); (x.iter().any(|v| *v as u64 == (b & 0x7f)) as u64) | (x.iter().all(|v| *v as u64 >= (b & 0x3f)) as u64) << 1 }
+
 pub const ST_FNS: &[(&str, fn(u64, u64) -> u64)] = &[
     ("st_min", st_min), ("st_max", st_max), ("st_imin", st_imin), ("st_imax", st_imax), ("st_cmp", st_cmp), ("st_icmp", st_icmp),
     ("st_abs", st_abs), ("st_unsigned_abs", st_unsigned_abs), ("st_signum", st_signum), ("st_abs_diff", st_abs_diff),
@@ -119,4 +136,9 @@ pub const ST_FNS: &[(&str, fn(u64, u64) -> u64)] = &[
     ("st_vec_ops", st_vec_ops), ("st_vec_clear", st_vec_clear), ("st_vec_remove_oob", st_vec_remove_oob),
     ("st_string_ops", st_string_ops), ("st_char_case", st_char_case), ("st_to_digit", st_to_digit), ("st_from_u32", st_from_u32),
     ("st_ptr_eq", st_ptr_eq),
+    ("st_it_enumerate", st_it_enumerate), ("st_it_take_while", st_it_take_while), ("st_it_skip_take", st_it_skip_take),
+    ("st_it_zip", st_it_zip), ("st_it_chain", st_it_chain), ("st_it_position", st_it_position), ("st_it_find", st_it_find),
+    ("st_it_find_map", st_it_find_map), ("st_it_fold", st_it_fold), ("st_it_last", st_it_last), ("st_it_nth", st_it_nth),
+    ("st_it_sum", st_it_sum), ("st_it_sum_overflow", st_it_sum_overflow), ("st_partition_point", st_partition_point),
+    ("st_it_any_all", st_it_any_all),
 ];
